@@ -130,7 +130,15 @@ func runPlan(t *testing.T, p *Plan, c *checker) {
 				c.checkLibrary(fullStack(), reg, opts)
 			case "request":
 				synctest.Wait()
-				pre := len(headers(fullStack()))
+				dump := fullStack()
+				pre := len(headers(dump))
+				// the handler's own dump is a little larger (its frames); leave a margin
+				truncated := len(dump)+16384 >= effectiveMaxmem(st.Query)
+				if truncated {
+					c.probes["request-truncated-regime"]++
+				} else if len(dump) > 1<<20 {
+					c.probes["request-dump>1MiB-complete"]++
+				}
 				rec := httptest.NewRecorder()
 				req := httptest.NewRequest(st.Method, "/debug?"+st.Query, nil)
 				func() {
@@ -141,7 +149,7 @@ func runPlan(t *testing.T, p *Plan, c *checker) {
 					}()
 					webstack.SnapshotHandler(rec, req)
 				}()
-				c.checkResponse(st.Method, st.Query, rec.Code, rec.Header().Get("Content-Type"), rec.Body.String(), queryValid(st.Method, st.Query), pre, false)
+				c.checkResponse(st.Method, st.Query, rec.Code, rec.Header().Get("Content-Type"), rec.Body.String(), queryValid(st.Method, st.Query), pre, truncated)
 			case "startreq":
 				synctest.Wait()
 				pre := len(headers(fullStack()))
